@@ -1,4 +1,573 @@
-//! C15 monitor (not written yet).
-pub fn run(_ctx: &crate::ctx::Ctx, report: &mut vcore::Report) {
-    report.notes.push("stub".into());
+//! C15 – No path ever produces a safelong outside the 53-bit safe range.
+//!
+//! Invariant oracle over every construction / conversion / parsing / deserialization route:
+//! `Ok(s) => |*s| <= 2^53-1 and *s == input`; canonical in-range input => `Ok`; out-of-range
+//! input => `Err`; never a panic. Non-canonical text (`+5`, `05`, `1.0`, `1e3`, ...) only has to
+//! satisfy the first implication.
+use crate::ctx::{guarded, Ctx};
+use conjure_http::server::conjure::FromPlainDecoder;
+use conjure_http::server::{ConjureRuntime, DecodeHeader, DecodeParam};
+use conjure_object::{Any, FromPlain, SafeLong};
+use conjure_serde::{json, smile};
+use http::HeaderValue;
+use serde_json::json;
+use std::collections::BTreeMap;
+use std::convert::TryFrom;
+use std::str::FromStr;
+use vcore::rng::fnv;
+use vcore::{Report, Rng};
+
+const SAFE_MAX: u128 = (1 << 53) - 1;
+/// Number of distinct routes below; the `From<small width>` ones (direct and through `Any`) cannot reject.
+const ROUTES: u64 = 44;
+const INFALLIBLE: u64 = 12;
+
+/// An integer in [-2^127, 2^128-1]: the union of the i128 and u128 domains.
+#[derive(Clone, Copy, Debug, PartialEq, Eq)]
+struct Big {
+    neg: bool,
+    mag: u128,
+}
+
+impl Big {
+    fn pos(mag: u128) -> Big {
+        Big { neg: false, mag }
+    }
+    fn of(v: i128) -> Big {
+        Big { neg: v < 0, mag: v.unsigned_abs() }
+    }
+    /// `anchor + delta`, `None` if it leaves the domain.
+    fn offset(self, delta: i64) -> Option<Big> {
+        match self.i128() {
+            Some(v) => match v.checked_add(delta as i128) {
+                Some(w) => Some(Big::of(w)),
+                // above i128::MAX the domain continues up to u128::MAX; below i128::MIN it ends
+                None if delta > 0 => Some(Big::pos(v as u128 + delta as u128)),
+                None => None,
+            },
+            None if delta >= 0 => self.mag.checked_add(delta as u128).map(Big::pos),
+            None => Some(Big::pos(self.mag - delta.unsigned_abs() as u128)),
+        }
+    }
+    fn norm(self) -> Option<Big> {
+        if self.mag == 0 {
+            return Some(Big { neg: false, mag: 0 });
+        }
+        if self.neg && self.mag > 1u128 << 127 {
+            return None;
+        }
+        Some(self)
+    }
+    fn dec(&self) -> String {
+        format!("{}{}", if self.neg { "-" } else { "" }, self.mag)
+    }
+    fn in_range(&self) -> bool {
+        self.mag <= SAFE_MAX
+    }
+    fn i128(&self) -> Option<i128> {
+        if self.neg {
+            if self.mag == 1u128 << 127 {
+                Some(i128::MIN)
+            } else {
+                Some(-(self.mag as i128))
+            }
+        } else {
+            i128::try_from(self.mag).ok()
+        }
+    }
+    fn u128(&self) -> Option<u128> {
+        if self.neg {
+            None
+        } else {
+            Some(self.mag)
+        }
+    }
+    fn fit<T: TryFrom<i128>>(&self) -> Option<T> {
+        self.i128().and_then(|v| T::try_from(v).ok())
+    }
+    fn u64(&self) -> Option<u64> {
+        self.u128().and_then(|v| u64::try_from(v).ok())
+    }
+    fn bitlen(&self) -> u32 {
+        128 - self.mag.leading_zeros()
+    }
+    fn class(&self) -> &'static str {
+        let m = self.mag;
+        if m == 0 {
+            "zero"
+        } else if m < SAFE_MAX {
+            "inside"
+        } else if m == SAFE_MAX {
+            "limit"
+        } else if m == SAFE_MAX + 1 {
+            "limit+1"
+        } else if m < (1u128 << 63) - 1 {
+            "fits-i64"
+        } else if m == (1u128 << 63) - 1 {
+            "i64-max-magnitude"
+        } else if m == 1u128 << 63 {
+            if self.neg { "i64-min" } else { "fits-u64" }
+        } else if m <= u64::MAX as u128 {
+            if self.neg { "fits-i128" } else { "fits-u64" }
+        } else if m < 1u128 << 127 || (self.neg && m == 1u128 << 127) {
+            "fits-i128"
+        } else {
+            "fits-u128"
+        }
+    }
+}
+
+enum Out {
+    Ok(i64),
+    Err(String),
+    Panic(String),
+}
+
+fn call<E: std::fmt::Display>(f: impl FnOnce() -> Result<SafeLong, E>) -> Out {
+    match guarded(|| f().map(|s| *s).map_err(|e| e.to_string())) {
+        Ok(Ok(v)) => Out::Ok(v),
+        Ok(Err(e)) => Out::Err(e),
+        Err(p) => Out::Panic(p),
+    }
+}
+
+/// Deserializes a one-entry map and hands back its key.
+fn key_of<E: std::fmt::Display>(f: impl FnOnce() -> Result<BTreeMap<SafeLong, bool>, E>) -> Out {
+    match guarded(|| f().map_err(|e| e.to_string())) {
+        Ok(Ok(m)) => match (m.len(), m.iter().next()) {
+            (1, Some((k, true))) => Out::Ok(**k),
+            _ => Out::Err(format!("map of {} entries", m.len())),
+        },
+        Ok(Err(e)) => Out::Err(e),
+        Err(p) => Out::Panic(p),
+    }
+}
+
+struct Env<'a> {
+    rep: &'a mut Report,
+    sub: &'a str,
+    seed: u64,
+    runtime: &'a ConjureRuntime,
+}
+
+impl Env<'_> {
+    /// The oracle. `denotes` is the integer the input stands for (`None`: the text denotes no
+    /// integer, only the range half of the first implication applies).
+    fn judge(&mut self, route: &str, input: &str, denotes: Option<Big>, canonical: bool, out: Out) {
+        self.rep.evaluations += 1;
+        let (sign, class, bits) = match denotes {
+            Some(x) => (if x.neg { "-" } else { "+" }, x.class(), x.bitlen()),
+            None => ("", "not-an-integer", 0),
+        };
+        self.rep.distinct.insert(fnv(&format!(
+            "{}|{}|{}{}|{}",
+            route,
+            if canonical { "canonical" } else { "non-canonical" },
+            sign,
+            class,
+            bits
+        )));
+        let outcome = match &out {
+            Out::Ok(_) => "ok",
+            Out::Err(_) => "err",
+            Out::Panic(_) => "panic",
+        };
+        self.rep.cell(&format!("outcome/{}/{}", route, outcome));
+        if canonical {
+            self.rep.cell(&format!("range/{}{}", sign, class));
+            let inside = denotes.map(|x| x.in_range()).unwrap_or(false);
+            self.rep.cell(&format!("route/{}/{}", route, if inside { "in-range-input" } else { "out-of-range-input" }));
+        } else {
+            self.rep.cell(&format!("route/{}/non-canonical-input", route));
+        }
+        let mut fail = |what: &str, observed: String, expected: &str| {
+            self.rep.violation(
+                self.sub,
+                self.seed,
+                format!("{}:{}", route, what),
+                json!({"route": route, "input": input, "canonical": canonical, "observed": observed, "expected": expected}),
+            );
+        };
+        match out {
+            Out::Panic(p) => fail("panic", p, "Ok or Err"),
+            Out::Ok(v) => {
+                if v.unsigned_abs() as u128 > SAFE_MAX {
+                    fail("out-of-range-safelong-produced", format!("Ok({})", v), "a value within +-(2^53-1), or Err");
+                } else if let Some(x) = denotes {
+                    if !x.in_range() {
+                        fail("accepts-out-of-range", format!("Ok({})", v), "Err");
+                    } else if x.i128() != Some(v as i128) {
+                        fail("value-changed", format!("Ok({})", v), "the input value");
+                    }
+                }
+            }
+            Out::Err(e) => {
+                if canonical && denotes.map(|x| x.in_range()).unwrap_or(false) {
+                    fail("rejects-in-range", format!("Err({})", e), "Ok(input)");
+                }
+            }
+        }
+    }
+
+    /// Routes whose input is a typed integer.
+    fn int_routes(&mut self, x: Big) {
+        let shown = x.dec();
+        macro_rules! go {
+            ($name:expr, $out:expr) => {{
+                let out = $out;
+                self.judge($name, &shown, Some(x), true, out);
+            }};
+        }
+        if let Some(v) = x.fit::<i64>() {
+            go!("new", call(|| SafeLong::new(v)));
+            go!("try_from_i64", call(|| SafeLong::try_from(v)));
+            go!("smile_i64/client", call(|| smile::client_from_slice::<SafeLong>(&smile::to_vec(&v).map_err(|e| e.to_string())?).map_err(|e| e.to_string())));
+            go!("smile_i64/server", call(|| smile::server_from_slice::<SafeLong>(&smile::to_vec(&v).map_err(|e| e.to_string())?).map_err(|e| e.to_string())));
+            go!("smile_i64/reader", call(|| smile::server_from_reader::<_, SafeLong>(&smile::to_vec(&v).map_err(|e| e.to_string())?[..]).map_err(|e| e.to_string())));
+            let m: BTreeMap<i64, bool> = [(v, true)].into_iter().collect();
+            go!("smile_key/client", key_of(|| smile::client_from_slice(&smile::to_vec(&m).map_err(|e| e.to_string())?).map_err(|e| e.to_string())));
+            go!("smile_key/server", key_of(|| smile::server_from_slice(&smile::to_vec(&m).map_err(|e| e.to_string())?).map_err(|e| e.to_string())));
+            go!("any_i64", call(|| Any::new(v)?.deserialize_into::<SafeLong>()));
+            go!("any_key_i64", key_of(|| Any::new(&m)?.deserialize_into()));
+        }
+        if let Some(v) = x.u64() {
+            go!("try_from_u64", call(|| SafeLong::try_from(v)));
+            go!("any_u64", call(|| Any::new(v)?.deserialize_into::<SafeLong>()));
+            go!("smile_u64/client", call(|| smile::client_from_slice::<SafeLong>(&smile::to_vec(&v).map_err(|e| e.to_string())?).map_err(|e| e.to_string())));
+        }
+        if let Some(v) = x.i128() {
+            go!("try_from_i128", call(|| SafeLong::try_from(v)));
+            go!("any_i128", call(|| Any::new(v)?.deserialize_into::<SafeLong>()));
+            go!("smile_i128/server", call(|| smile::server_from_slice::<SafeLong>(&smile::to_vec(&v).map_err(|e| e.to_string())?).map_err(|e| e.to_string())));
+        }
+        if let Some(v) = x.u128() {
+            go!("try_from_u128", call(|| SafeLong::try_from(v)));
+        }
+        if let Some(v) = x.fit::<isize>() {
+            go!("try_from_isize", call(|| SafeLong::try_from(v)));
+        }
+        if let Some(v) = x.u64().and_then(|v| usize::try_from(v).ok()) {
+            go!("try_from_usize", call(|| SafeLong::try_from(v)));
+        }
+        macro_rules! small {
+            ($($t:ty, $from:expr, $any:expr);*) => {$(
+                if let Some(v) = x.fit::<$t>() {
+                    go!($from, call(|| Ok::<_, String>(SafeLong::from(v))));
+                    go!($any, call(|| Any::new(v)?.deserialize_into::<SafeLong>()));
+                }
+            )*};
+        }
+        small!(u8, "from_u8", "any_u8"; i8, "from_i8", "any_i8"; u16, "from_u16", "any_u16";
+               i16, "from_i16", "any_i16"; u32, "from_u32", "any_u32"; i32, "from_i32", "any_i32");
+    }
+
+    /// Routes whose input is text. `decoders`: also run the HTTP parameter decoders (their error
+    /// path captures a backtrace, so they are run on a subset).
+    fn text_routes(&mut self, text: &str, denotes: Option<Big>, canonical: bool, decoders: bool) {
+        macro_rules! go {
+            ($name:expr, $out:expr) => {{
+                let out = $out;
+                self.judge($name, text, denotes, canonical, out);
+            }};
+        }
+        go!("from_str", call(|| SafeLong::from_str(text)));
+        go!("from_plain", call(|| SafeLong::from_plain(text)));
+        if decoders {
+            let rt = self.runtime;
+            go!("decoder/param", call(|| <FromPlainDecoder as DecodeParam<SafeLong>>::decode(rt, [text]).map_err(|e| e.cause().to_string())));
+            if let Ok(h) = HeaderValue::from_str(text) {
+                go!("decoder/header", call(|| <FromPlainDecoder as DecodeHeader<SafeLong>>::decode(rt, [&h]).map_err(|e| e.cause().to_string())));
+            }
+        }
+        go!("json_value/client", call(|| json::client_from_str::<SafeLong>(text)));
+        go!("json_value/server", call(|| json::server_from_str::<SafeLong>(text)));
+        go!("json_value/server-slice", call(|| json::server_from_slice::<SafeLong>(text.as_bytes())));
+        go!("json_value/client-reader", call(|| json::client_from_reader::<_, SafeLong>(text.as_bytes())));
+        go!("any_doc/client", call(|| {
+            json::client_from_str::<Any>(text).map_err(|e| e.to_string())?.deserialize_into::<SafeLong>().map_err(|e| e.to_string())
+        }));
+        go!("any_doc/server", call(|| {
+            json::server_from_str::<Any>(text).map_err(|e| e.to_string())?.deserialize_into::<SafeLong>().map_err(|e| e.to_string())
+        }));
+        let mut doc = String::from("{");
+        vcore::json::quote(text, &mut doc);
+        doc.push_str(":true}");
+        go!("json_key/client", key_of(|| json::client_from_str(&doc)));
+        go!("json_key/server", key_of(|| json::server_from_str(&doc)));
+        go!("json_key/server-reader", key_of(|| json::server_from_reader(doc.as_bytes())));
+        go!("any_doc_key/client", key_of(|| {
+            json::client_from_str::<Any>(&doc).map_err(|e| e.to_string())?.deserialize_into().map_err(|e| e.to_string())
+        }));
+    }
+
+    fn integer(&mut self, x: Big, decoders: bool) {
+        self.int_routes(x);
+        self.text_routes(&x.dec(), Some(x), true, decoders);
+    }
+
+    /// Non-canonical spellings of `x` (all denote exactly `x`) and neighbours that denote no
+    /// integer at all.
+    fn non_canonical(&mut self, x: Big, decoders: bool) {
+        let sign = if x.neg { "-" } else { "" };
+        let digits = x.mag.to_string();
+        let dec = x.dec();
+        let mut forms: Vec<(String, Option<Big>)> = vec![
+            (format!("{}0{}", sign, digits), Some(x)),
+            (format!("{}00000000000000000000{}", sign, digits), Some(x)),
+            (format!("{}.0", dec), Some(x)),
+            (format!("{}.000000000000000000000", dec), Some(x)),
+            (format!("{}e0", dec), Some(x)),
+            (format!("{}E+0", dec), Some(x)),
+            (format!("{}0e-1", dec), Some(x)),
+            (format!(" {}", dec), Some(x)),
+            (format!("{} ", dec), Some(x)),
+            (format!("{}\n", dec), Some(x)),
+            (format!("\t{}", dec), Some(x)),
+            (format!("\"{}\"", dec), Some(x)),
+            (format!("{}.5", dec), None),
+            (format!("{}.999999999999", dec), None),
+            (format!("{}e-1", dec), if x.mag % 10 == 0 { Big { neg: x.neg, mag: x.mag / 10 }.norm() } else { None }),
+            (format!("{}_0", dec), None),
+            (format!("0x{:x}", x.mag), None),
+            (format!("{}L", dec), None),
+            (format!("[{}]", dec), None),
+        ];
+        if !x.neg {
+            forms.push((format!("+{}", digits), Some(x)));
+            forms.push((format!("+0{}", digits), Some(x)));
+        }
+        if x.mag == 0 {
+            forms.push(("-0".into(), Some(x)));
+            forms.push(("-0.0".into(), Some(x)));
+            forms.push(("+0".into(), Some(x)));
+            forms.push(("-00".into(), Some(x)));
+        }
+        if x.mag > 0 {
+            // d.ddd e(n-1): the same integer in scientific notation
+            let (head, tail) = digits.split_at(1);
+            let frac = if tail.is_empty() { String::new() } else { format!(".{}", tail) };
+            forms.push((format!("{}{}{}e{}", sign, head, frac, tail.len()), Some(x)));
+            forms.push((format!("{}{}{}E+{}", sign, head, frac, tail.len()), Some(x)));
+            if x.mag % 10 == 0 {
+                forms.push((format!("{}{}e1", sign, x.mag / 10), Some(x)));
+            }
+            // full-width digits
+            let wide: String = digits.chars().map(|c| char::from_u32(0xFF10 + c.to_digit(10).unwrap()).unwrap()).collect();
+            forms.push((format!("{}{}", sign, wide), Some(x)));
+        }
+        for (text, denotes) in forms {
+            self.text_routes(&text, denotes, false, decoders);
+        }
+    }
+}
+
+// ---------------------------------------------------------------------------------------------
+// workload
+
+/// Centres of the exhaustively enumerated neighbourhoods.
+fn anchors() -> Vec<(&'static str, Big)> {
+    let p = |k: u32| 1u128 << k;
+    vec![
+        ("0", Big::pos(0)),
+        ("2^53-1", Big::pos(SAFE_MAX)),
+        ("-(2^53-1)", Big { neg: true, mag: SAFE_MAX }),
+        ("2^53", Big::pos(p(53))),
+        ("-2^53", Big { neg: true, mag: p(53) }),
+        ("i64::MAX", Big::of(i64::MAX as i128)),
+        ("i64::MIN", Big::of(i64::MIN as i128)),
+        ("u64::MAX", Big::pos(u64::MAX as u128)),
+        ("-u64::MAX", Big { neg: true, mag: u64::MAX as u128 }),
+        ("i128::MAX", Big::of(i128::MAX)),
+        ("i128::MIN", Big::of(i128::MIN)),
+        ("u128::MAX", Big::pos(u128::MAX)),
+        ("i32::MAX", Big::of(i32::MAX as i128)),
+        ("i32::MIN", Big::of(i32::MIN as i128)),
+        ("u32::MAX", Big::pos(u32::MAX as u128)),
+        ("i16::MAX", Big::of(i16::MAX as i128)),
+        ("i16::MIN", Big::of(i16::MIN as i128)),
+        ("u16::MAX", Big::pos(u16::MAX as u128)),
+        // f64 rounding edges seen by JSON parsers that fall back to floating point
+        ("2^64+2^11", Big::pos(p(64) + p(11))),
+        ("10^16", Big::pos(10u128.pow(16))),
+    ]
+}
+
+fn powers() -> Vec<Big> {
+    let mut v = vec![];
+    for k in 0..=128u32 {
+        let b = if k == 128 { None } else { Some(1u128 << k) };
+        for neg in [false, true] {
+            let mut mags = vec![];
+            match b {
+                Some(b) => {
+                    mags.extend([Some(b), b.checked_sub(1), b.checked_add(1)]);
+                }
+                None => mags.push(Some(u128::MAX)),
+            }
+            for m in mags.into_iter().flatten() {
+                if let Some(x) = (Big { neg, mag: m }).norm() {
+                    v.push(x);
+                }
+            }
+        }
+    }
+    for k in 0..=38u32 {
+        let t = 10u128.pow(k);
+        for neg in [false, true] {
+            for m in [t, t - 1, t + 1] {
+                if let Some(x) = (Big { neg, mag: m }).norm() {
+                    v.push(x);
+                }
+            }
+        }
+    }
+    v
+}
+
+fn gen_big(r: &mut Rng) -> Big {
+    let x = match r.below(10) {
+        0 => {
+            let a = anchors();
+            let (_, c) = a[r.below(a.len())];
+            c.offset(r.range(-5000, 5000))
+        }
+        1 => {
+            let k = r.below(129) as u32;
+            let b = if k == 128 { u128::MAX } else { 1u128 << k };
+            Big { neg: r.bool(), mag: b }.offset(r.range(-3, 3))
+        }
+        2 => Big { neg: r.bool(), mag: r.range(0, SAFE_MAX as i64) as u128 }.norm(),
+        3 => Big { neg: r.bool(), mag: (1u128 << 53) + (r.u64() as u128 & ((1 << (r.below(12) as u32 + 1)) - 1)) }.norm(),
+        _ => {
+            // uniform over bit patterns of a random width
+            let w = match r.below(8) {
+                0 => 1 + r.below(128) as u32,
+                1 => 53,
+                2 => 54,
+                3 => 63,
+                4 => 64,
+                5 => 65,
+                6 => 127,
+                _ => 128,
+            };
+            let m = if w == 128 { r.u128() } else { r.u128() & ((1u128 << w) - 1) };
+            Big { neg: r.bool(), mag: m }.norm()
+        }
+    };
+    x.unwrap_or(Big::pos(0))
+}
+
+pub fn run(ctx: &Ctx, report: &mut Report) {
+    let runtime = ConjureRuntime::new();
+    let runtime = &runtime;
+    let radius: i64 = if ctx.scale < 0.5 { 128 } else { 1024 };
+
+    // Exhaustive neighbourhoods, one thread per anchor. case_seed = anchor index * 2^32 + (delta + 4096).
+    ctx.fixed(report, "neighbourhoods", |rep| {
+        let list = anchors();
+        let only = ctx.replay.as_ref().map(|(_, s)| *s);
+        let parts: Vec<Report> = std::thread::scope(|s| {
+            let handles: Vec<_> = list
+                .iter()
+                .enumerate()
+                .map(|(ai, (name, centre))| {
+                    let property = rep.property.clone();
+                    s.spawn(move || {
+                        let mut r = Report::new(&property);
+                        let mut n = 0u64;
+                        for delta in -radius..=radius {
+                            let seed = ((ai as u64) << 32) | (delta + 4096) as u64;
+                            if only.map(|o| o != seed).unwrap_or(false) {
+                                continue;
+                            }
+                            let Some(x) = centre.offset(delta) else { continue };
+                            n += 1;
+                            let mut env = Env { rep: &mut r, sub: "neighbourhoods", seed, runtime };
+                            // the decoders' error path is slow: every value near the centre, every 16th beyond
+                            env.integer(x, delta.abs() <= 40 || delta % 16 == 0);
+                            if delta.abs() <= 2 {
+                                env.non_canonical(x, true);
+                            }
+                        }
+                        r.cell_n(&format!("neighbourhood/{}", name), n);
+                        r
+                    })
+                })
+                .collect();
+            handles.into_iter().map(|h| h.join().expect("monitor thread")).collect()
+        });
+        for p in parts {
+            rep.merge(p);
+        }
+    });
+
+    ctx.fixed(report, "powers", |rep| {
+        let only = ctx.replay.as_ref().map(|(_, s)| *s);
+        for (i, x) in powers().into_iter().enumerate() {
+            if only.map(|o| o != i as u64).unwrap_or(false) {
+                continue;
+            }
+            let mut env = Env { rep, sub: "powers", seed: i as u64, runtime };
+            env.integer(x, true);
+            env.non_canonical(x, i % 8 == 0);
+            rep.cell("powers/enumerated");
+        }
+    });
+
+    ctx.cases(report, "random", ctx.n(12_500, 625_000), |seed, rep| {
+        let mut r = Rng::new(seed);
+        let mut env = Env { rep, sub: "random", seed, runtime };
+        for i in 0..16 {
+            let x = gen_big(&mut r);
+            env.rep.sample(2, || json!({"sub": "random", "case_seed": seed, "integer": x.dec(), "class": x.class()}));
+            env.integer(x, i == 0);
+        }
+    });
+
+    ctx.cases(report, "non-canonical", ctx.n(4_000, 200_000), |seed, rep| {
+        let mut r = Rng::new(seed);
+        let mut env = Env { rep, sub: "non-canonical", seed, runtime };
+        let x = gen_big(&mut r);
+        env.non_canonical(x, r.chance(1, 8));
+    });
+
+    if ctx.replay.is_none() {
+        let n_anchor = anchors().len() as u64;
+        report.floor_cells("neighbourhoods-enumerated", "neighbourhood/", n_anchor);
+        let full: u64 = report
+            .matrix
+            .iter()
+            .filter(|(k, v)| k.starts_with("neighbourhood/") && **v == 2 * radius as u64 + 1)
+            .count() as u64;
+        // the neighbourhoods of i128::MIN and u128::MAX are cut by the edge of the domain
+        report.floor("neighbourhoods-complete", n_anchor - 2, full);
+        let p = report.matrix.get("powers/enumerated").copied().unwrap_or(0);
+        report.floor("powers-enumerated", powers().len() as u64, p);
+        // every route must have been fed in-range and (except the small widths, which have none) out-of-range input
+        let routes: std::collections::BTreeSet<String> = report
+            .matrix
+            .keys()
+            .filter_map(|k| k.strip_prefix("route/"))
+            .map(|k| k.rsplit_once('/').unwrap().0.to_string())
+            .collect();
+        report.floor("routes", ROUTES, routes.len() as u64);
+        let ok = routes.iter().filter(|r| report.matrix.contains_key(&format!("route/{}/in-range-input", r))).count() as u64;
+        let err = routes.iter().filter(|r| report.matrix.contains_key(&format!("route/{}/out-of-range-input", r))).count() as u64;
+        report.floor("routes-given-in-range-input", ROUTES, ok);
+        report.floor("routes-given-out-of-range-input", ROUTES - INFALLIBLE, err);
+        report.floor_cells("range-classes", "range/", 16);
+        let d = report.distinct.len() as u64;
+        report.floor("distinct-route-x-class", if ctx.scale >= 1.0 { 6_000 } else { 3_000 }, d);
+    }
+    report.notes.push(format!(
+        "exhaustive: all integers within +-{} of {} anchors (0, +-(2^53-1), +-2^53, i64/u64/i128/u128 extremes, small-width extremes) \
+         through every applicable route; +-2^k, +-2^k+-1 for k = 0..=128 and 10^k+-1; the rest sampled by bit-pattern width",
+        radius,
+        anchors().len()
+    ));
+    report.notes.push(
+        "distinct = route x canonical? x sign x range class x bit length. Non-canonical text (+5, 05, 1.0, 1e3, padded, quoted, \
+         full-width, ...) is judged on `Ok(s) => in range and s == denoted integer` only; text that denotes no integer on the range half only"
+            .into(),
+    );
 }
